@@ -277,6 +277,15 @@ def run(ctx):
                 sig = "C05|%s|%s|%s" % (k0, codec, how)
                 if codec == "xz" and "check=10" in desc and not rc.out and b"Unsupported SHA-256 checksum" in rc.err:
                     sig = "C05|xz|sha256-check-unsupported"
+                if codec == "bz2" and not rc.out and b"huffman bitstream truncated" in rc.err:
+                    # bzip2-rs buffers at most one block-size of *compressed* bytes per block: a block of incompressible data,
+                    # which bzip2 stores slightly expanded, cannot be decoded
+                    try:
+                        span, lim = gen.bz2_max_block_span(open(rc.argv[-1], "rb").read())
+                    except OSError:
+                        span, lim = 0, 0
+                    if lim and span >= lim:
+                        sig = "C05|bz2|compressed-block-not-smaller-than-the-block-size|decoder-error"
                 if codec == "lz4" and lc == "misaligned":
                     sig += "|block-split-not-multiple-of-blocksz"
                 if codec == "tar" and "longname=True" in desc:
